@@ -12,10 +12,14 @@
  * Bounded: at most 3 successful reads per readiness event (the 4th call reports EAGAIN), no second EINTR in a row. */
 #include "prelude.h"
 
+#ifndef RD_MAXCALLS
+#define RD_MAXCALLS 3
+#endif
 int g_errno;
 int *errno_stub(void) { return &g_errno; }
 int g_calls, g_eintr_last; int64_t g_delivered; ssize_t g_last_ret; int g_last_errno;
 int g_sched_calls, g_cancel_calls, g_end_calls, g_seq, g_end_seq, g_wake_seq; int g_sched_nil, g_sched_buffer, g_sched_abstract; JanetFiber *g_wake_fiber, *g_end_fiber;
+static uint8_t rd_block1[1], rd_block2[1];
 static JanetBuffer rd_buffer; static StateRead rd_state; static JanetStream rd_stream; static JanetFiber rd_fiber;
 int g_exp_kind;
 
@@ -24,9 +28,7 @@ void buffer_extra_stub(JanetBuffer *b, int32_t n) {
   __CPROVER_assert(b == &rd_buffer && n >= 0, "C16 read: room is requested in the destination buffer for a non-negative count");
   if ((int64_t) b->count + n > INT32_MAX) __CPROVER_assume(0);      /* raises "buffer overflow" */
   if (b->count + n > b->capacity) {
-    int32_t nc = b->count + n;
-    uint8_t *p = malloc((size_t) nc); __CPROVER_assume(p != 0);
-    b->data = p; b->capacity = nc;
+    b->data = rd_block2; b->capacity = b->count + n;      /* the block may move */
   }
 }
 static ssize_t kernel_delivers(int kind, int fd, void *buf, size_t n, int flags) {
@@ -35,14 +37,15 @@ static ssize_t kernel_delivers(int kind, int fd, void *buf, size_t n, int flags)
   __CPROVER_assert(fd == rd_stream.handle && (kind == 0 || flags == rd_state.flags), "C16 read: the stream's own descriptor and the caller's flags are used");
   __CPROVER_assert(buf == (void *)(rd_buffer.data + rd_buffer.count), "C16 read: new bytes are placed directly after the bytes already received (in order, none overwritten)");
   __CPROVER_assert(n == (size_t) limit, "C16 read: at most the outstanding count is requested (4096 per call in chunk mode)");
-  __CPROVER_assert(n == 0 || __CPROVER_w_ok(buf, n), "C16 read: the range handed to the kernel lies inside the buffer's block");
+  /* the block itself is not modelled (the callback never dereferences it): "inside the block" is the arithmetic fact */
+  __CPROVER_assert((int64_t) rd_buffer.count + (int64_t) n <= (int64_t) rd_buffer.capacity, "C16 read: the range handed to the kernel lies inside the buffer's block");
   g_calls++;
   ssize_t r = (ssize_t) nd_i64();
   __CPROVER_assume(r == -1 || (r >= 0 && (size_t) r <= n));         /* assumed contract of read(2)/recv(2)/recvfrom(2) */
-  if (g_calls > 3) __CPROVER_assume(r == -1);                       /* bound: the 4th call of one event reports EAGAIN */
+  if (g_calls > RD_MAXCALLS) __CPROVER_assume(r == -1);             /* bound: the call after RD_MAXCALLS reads reports EAGAIN */
   if (r == -1) {
     g_errno = nd_int();
-    if (g_calls > 3) __CPROVER_assume(g_errno == EAGAIN);
+    if (g_calls > RD_MAXCALLS) __CPROVER_assume(g_errno == EAGAIN);
     if (g_eintr_last) __CPROVER_assume(g_errno != EINTR);           /* bound: no two EINTR in a row */
     g_eintr_last = (g_errno == EINTR);
     if (g_eintr_last) g_calls--;                                    /* a retried call does not count */
@@ -70,7 +73,7 @@ void h_read(void) {
   /* destination buffer: any count/capacity (representation invariant of JanetBuffer) */
   int32_t cap = nd_i32(), cnt = nd_i32();
   __CPROVER_assume(cap >= 0 && cnt >= 0 && cnt <= cap);
-  rd_buffer.data = malloc((size_t) cap); __CPROVER_assume(rd_buffer.data != 0 || cap == 0);
+  rd_buffer.data = rd_block1;
   rd_buffer.count = cnt; rd_buffer.capacity = cap;
   rd_state.buf = &rd_buffer;
   rd_state.is_chunk = nd_int() & 1;
@@ -124,7 +127,9 @@ void h_read(void) {
     __CPROVER_assert(g_sched_calls == 1, "C16 read: a satisfied or ended read resumes the reader");
     __CPROVER_assert(mode == JANET_ASYNC_READMODE_RECVFROM ? g_sched_abstract : g_sched_buffer, "C16 read: the reader gets its buffer (the sender address for recv-from)");
     __CPROVER_assert(!rd_state.is_chunk || rd_state.bytes_left == 0 || eos, "C16 read: a chunked read returns exactly the requested count unless the stream ends");
+#if RD_MAXCALLS > 1
     if (rd_state.is_chunk && rd_state.bytes_left == 0 && g_calls > 1) REACH("read: chunk completed over several reads");
+#endif
     if (eos) REACH("read: ended by end of stream after data");
     REACH("read: completes");
   }
